@@ -86,7 +86,7 @@ pub fn run_c10(ctx: &mut Ctx) {
         let mut guard = 0; let mut shortw = false;
         let mut req_reads = 0;
         loop {
-            guard += 1; if guard > 20_000 { or.fail("writers did not finish (transport always accepts eventually)".into(), log.replay_block(), "C10:hang".into()); break; }
+            guard += 1; if guard > 3_000 { or.fail("writers did not finish (transport always accepts eventually)".into(), log.replay_block(), "C10:hang".into()); break; }
             let active: Vec<usize> = ws.iter().enumerate().filter(|(_, w)| !w.dead && (w.cur < w.jobs.len() || w.in_flush)).map(|(i, _)| i).collect();
             if active.is_empty() { break; }
             // sometimes poll the request itself (reads management records, flushes replies under the same mutex)
@@ -172,6 +172,10 @@ pub fn run_c09(ctx: &mut Ctx) {
         let mut buffered: Vec<u8> = vec![];       // what fill_buf last showed and was not yet consumed
         let mut w_prev = field(&o, "w") == Some("true");
         if w_prev && streams.len() > 1 { or.fail("request with two input streams is writeable before any input was processed".into(), log.replay_block(), "C09:writeable-early".into()); }
+        // bytes the parser can have seen so far (look-ahead + what the transport delivered), and where the first record of the
+        // final stream ends its header on the wire: before that the earlier stream has neither ended nor been left by the client
+        let mut fed = la;
+        let final_hdr_end: Option<usize> = streams.last().and_then(|&fs| { let mut off = 0usize; for r in &case.recs { if r.rtype == fs && r.id == case.id { return Some(off + 8); } off += r.ser().len(); } None });
         let mut steps = 0; let mut idle = 0; let mut errored = false;
         let nsteps = 20 + rng.usize_below(150);
         while steps < nsteps && idle < 30 && !errored {
@@ -224,7 +228,8 @@ pub fn run_c09(ctx: &mut Ctx) {
                 9 => {
                     // writeable(): poll to completion
                     let mut o = String::new(); let mut n = 0;
-                    loop { o = ex(&mut log, &mut im, "a.writeable"); n += 1; if !o.starts_with("pending") || n > 200 { break; } wlog.extend(unhex(field(&o, "wd").unwrap_or("-"))); }
+                    loop { o = ex(&mut log, &mut im, "a.writeable"); n += 1; if !o.starts_with("pending") || n > 200 { break; } wlog.extend(unhex(field(&o, "wd").unwrap_or("-")));
+                        if let Some(e) = field(&o, "ev") { for x in e.split(',') { if let Some(rest) = x.strip_prefix('R') { if let Some((_, k)) = rest.split_once(':') { if let Ok(k) = k.parse::<usize>() { fed += k; } } } } } }
                     if o.starts_with("ready") {
                         // implicitly selects the final stream, discarding earlier ones
                         if let Some(&last) = streams.last() { if active != Some(last) { if let Some(c) = active { if eof_seen != Some(c) { skipped.push(c); } } active = Some(last); eof_seen = None; buffered.clear(); } }
@@ -250,8 +255,10 @@ pub fn run_c09(ctx: &mut Ctx) {
             }
             if o.starts_with("panic") && choice != 10 { or.fail(format!("poll panicked: {o}"), log.replay_block(), "C09:panic".into()); errored = true; }
             // writeable gate
+            if let Some(e) = field(&o, "ev") { for x in e.split(',') { if let Some(rest) = x.strip_prefix('R') { if let Some((_, k)) = rest.split_once(':') { if let Ok(k) = k.parse::<usize>() { fed += k; } } } } }
             if let Some(wf) = field(&o, "w") { if wf == "true" || wf == "false" {
                 let wnow = wf == "true";
+                if wnow && !w_prev && streams.len() > 1 { if final_hdr_end.map_or(true, |h| fed < h) { or.fail(format!("request became writeable after {fed} input bytes, before the first record of its final stream (header ends at byte {:?}) can have been seen: the earlier stream has neither ended nor been skipped past by the client", final_hdr_end), log.replay_block(), "C09:writeable-before-final-stream".into()); } }
                 if w_prev && !wnow { or.fail("is_writeable() went from true to false".into(), log.replay_block(), "C09:writeable-not-monotone".into()); }
                 if wnow && streams.len() > 1 && active != streams.last().copied() { or.fail(format!("request reports writeable while its active stream {active:?} is not the final one"), log.replay_block(), "C09:writeable-early".into()); }
                 w_prev = wnow;
